@@ -136,7 +136,22 @@ class AccumulatorFirst(AggBase):
 
     def clauses(self):
         return [Clause('C06.first_batch_state', ['C06', 'C12'], text='result[0] == ' + state_text(self.agg, 'new')),
-                Clause('C06.first_batch_value', ['C06'], text=result_clause(self.agg, 'new'))]
+                Clause('C06.first_batch_value', ['C06'], text=result_clause(self.agg, 'new')),
+                Clause('C06.never_raises', ['C06', 'C07'], when='raise', text='False', kind='df_stream',
+                       replay={'agg': self.agg.lower(), 'vector': self.vector},
+                       note='an aggregation must not fail on any batch (an exception ends the stream: no later prefix is ever reported)')]
+
+    def replay_input(self, I, model, outcome):
+        from pyvc.decode import Decoder, seq_items
+        from .df_common import f_s1, f_c1
+        d = Decoder(model)
+        rows = seq_items(d.ev(self.pre_args['new'].t))
+        vals = []
+        for r in rows:
+            c = d.ev(f_c1(r))
+            v = d.real(f_s1(r))
+            vals.append(None if str(c) == '0' else (v if isinstance(v, int) else v[0] / v[1]))
+        return {'harness': 'df_harness', 'agg': self.agg.lower(), 'vector': self.vector, 'batches': [vals, [1.0, 2.0, 4.0]]}
 
 
 def _mk(base, agg, vector):
